@@ -466,7 +466,7 @@ func TestVerifHarnessC05(t *testing.T) {
 	thorough := bound == "thorough"
 	budget := 17 * time.Second
 	opens := []string{"ondemand", "preloaded", "ondemand"}
-	jobTimeout := 20 * time.Second
+	jobTimeout := 30 * time.Second
 	if thorough {
 		budget = 230 * time.Second
 		opens = []string{"ondemand", "ondemand", "preloaded", "preloaded", "ondemand"}
@@ -521,7 +521,7 @@ func TestVerifHarnessC05(t *testing.T) {
 	reps := 2
 	if thorough {
 		ns = []int{1, 2, 3, 5, 10, 30, 100, 400, 1200, 3000}
-		reps = 25
+		reps = 20
 	}
 	for rep := 0; rep < reps; rep++ {
 		for _, n := range ns {
@@ -543,11 +543,11 @@ func TestVerifHarnessC05(t *testing.T) {
 	nProbe := 12
 	if thorough {
 		sizes = []int{1, 500, 999, 1000, 1001, 1002, 1003, 1999, 2000, 2001, 2002, 2500, 3001, 4095, 4096, 4097, 5000, 10001}
-		nProbe = 60
+		nProbe = 30
 	}
 	mixSeeds := 1
 	if thorough {
-		mixSeeds = 3
+		mixSeeds = 2
 	}
 	for s := 0; s < mixSeeds; s++ {
 		for i, n := range sizes {
